@@ -12,13 +12,35 @@ def handleOp (op : String) (args : List String) : String :=
     | some r => r
     | none => "bad-op"
 
+/-- digest of a ring: the text digest plus the width of the longitude window (`max - min`), so that "unwrapped, not split" can be
+judged on rings too long to ship -/
+def digestRing (op : String) (args : List String) : Option String :=
+  match op, args with
+  | "cell_to_boundary", [a, c, sg] => do
+      let n ← a.toNat?
+      let closed := c == "1"
+      let sg ← (if sg == "none" then some none else sg.toNat?.map some)
+      match cellToBoundary n closed sg with
+      | .ok pts =>
+        let base := digestStr ("ok " ++ showPts pts)
+        match pts with
+        | [] => pure base
+        | p0 :: rest =>
+          let (mn, mx) := rest.foldl (fun (acc : Float × Float) q => (if q.1 < acc.1 then q.1 else acc.1, if q.1 > acc.2 then q.1 else acc.2)) (p0.1, p0.1)
+          pure (base ++ " span=" ++ showF (mx - mn))
+      | o => pure (showOutcome showPts o)
+  | _, _ => none
+
 def handle (line : String) : String :=
   match (line.trimAscii.toString.splitOn " ").filter (· ≠ "") with
   | [] => "bad-op"
   | "digest" :: op :: args =>
     match digestOps op args with
     | some r => r
-    | none => digestStr (handleOp op args)
+    | none =>
+      match digestRing op args with
+      | some r => r
+      | none => digestStr (handleOp op args)
   | op :: args => handleOp op args
 
 /-- a dodeca call of a history: `dodeca_forward,t,p,o` / `dodeca_inverse,x,y,o` -/
